@@ -669,6 +669,10 @@ class Runner:
                         v = "wrongret"
                 except TooManyCalls:
                     v = "toomany"
+            elif name == "ForeignContinue":
+                # this process continues a task that was started (and whose id was serialized) by ANOTHER process: its log holds no
+                # root start message for that task
+                env.acts.append(Action.continue_task(task_id="verif-foreign-%d@/%d" % (op["k"], 1 + op["k"]), sa=VAL["sa"]))
             elif name == "Spawn":
                 r = Runner(env, op["c2"])
                 env.runners[op["c2"]] = r
